@@ -128,8 +128,19 @@ P_C11 == \A fl \in {"arith", "geo", "harm"} :
             /\ TT!AllowedMean(fl, <<>>).errs = {"TooFewSamples"}
             /\ TT!AllowedMean(fl, <<TT!Num(3), TT!Num(5)>>) = [ok |-> TRUE, errs |-> {}]
 
+\* C05 / C09: a bulk call that meets a rejected value reports that value and leaves the admissible PREFIX (or, the admitted
+\* alternative, nothing) in the register - never the values that FOLLOW the rejected one; a single rejected append is a no-op
+P_C05 == \A fl \in {"geo", "harm"} :
+            LET h0  == [r \in {1} |-> AC!EmptyReg]
+                act == [a |-> "extend", r |-> 1, xs |-> <<3, -1, 2>>]
+                one == [a |-> "append", r |-> 1, v |-> 0]
+            IN /\ AC!Outcome(fl, h0, act) = [tag |-> "err", variant |-> "NonPositiveValue", v |-> -1]
+               /\ AC!Step(fl, h0, act)[1].a = AC!BagOfSeq(<<3>>)
+               /\ AC!StepAlt(fl, h0, act) = h0
+               /\ AC!Step(fl, h0, one) = h0
+
 VARIABLE tick
 StatsInit == tick = 0
 StatsNext == tick' = tick
-ASSUME P_C07 /\ P_C13 /\ P_C14 /\ P_C15 /\ P_C18 /\ P_C09 /\ P_C08 /\ P_C11
+ASSUME P_C07 /\ P_C13 /\ P_C14 /\ P_C15 /\ P_C18 /\ P_C09 /\ P_C08 /\ P_C11 /\ P_C05
 =============================================================================
